@@ -117,6 +117,13 @@ type c15Gen struct {
 	B []string           `json:"b"`
 	C map[string]*c15Gen `json:"c"`
 	D *c15Base2          `json:"d"`
+	E c15ThingRef        `json:"e"`
+}
+
+// a type in the shape the generator reads as "a reference or a value" (name ending in Ref, fields Ref and Value)
+type c15ThingRef struct {
+	Ref   string    `json:"$ref,omitempty"`
+	Value *c15Base2 `json:"value,omitempty"`
 }
 type c15Base2 struct {
 	X float64 `json:"x"`
